@@ -26,11 +26,24 @@ func (c *OrgCase) Reqs() []Req {
 
 func (c *OrgCase) Judge(rs []Res, env *Env) Outcome {
 	o := Outcome{Cell: c.Cell_}
+	nok, firstBad, whyBad := 0, -1, ""
 	for i := range rs {
-		if ok, why := env.accepted(&rs[i]); !ok {
-			o.Status, o.Note = Rejected, why
-			return o
+		if ok, why := env.accepted(&rs[i]); ok {
+			nok++
+		} else if firstBad < 0 {
+			firstBad, whyBad = i, why
 		}
+	}
+	if nok == 0 {
+		o.Status, o.Note = Rejected, whyBad
+		return o
+	}
+	if firstBad >= 0 {
+		// the same program is accepted at one origin and refused at another: the origin changed more than absolute references
+		o.Status = Violated
+		o.Viols = []Violation{{Sig: fmt.Sprintf("C16|refused-at-some-origins|bad=%d", c.Orgs[firstBad]),
+			Detail: fmt.Sprintf("the program assembles at %d of the %d origins %v but is refused at origin %d (%s); program:\n%s", nok, len(rs), c.Orgs, c.Orgs[firstBad], whyBad, c.P.Source())}}
+		return o
 	}
 	orgv := func(x int64) int64 {
 		if x < 0 {
